@@ -17,6 +17,7 @@ type C08Case struct {
 	Builtin  string `json:"builtin"`
 	Position string `json:"position"`
 	Syntax   string `json:"syntax"`
+	Debug    bool   `json:"debug"`
 	Profile  string `json:"profile"`
 	Data     string `json:"data"`
 }
@@ -145,8 +146,15 @@ func genC08(g *G, n int, out io.Writer, full bool) {
 					}
 				}
 				prof := embedRego(p, code, helper)
-				enc.Encode(C08Case{Op: "c08", Id: id, Builtin: b.Name, Position: pos, Syntax: syn, Profile: prof, Data: "[]"})
-				id++
+				// the debug flag of the entry points is an input like any other: forbidden built-ins are tried under both values
+				debugs := []bool{g.coin(0.5)}
+				if forbidden[b.Name] {
+					debugs = []bool{false, true}
+				}
+				for _, dbg := range debugs {
+					enc.Encode(C08Case{Op: "c08", Id: id, Builtin: b.Name, Position: pos, Syntax: syn, Debug: dbg, Profile: prof, Data: "[]"})
+					id++
+				}
 			}
 		}
 	}
